@@ -340,6 +340,8 @@ func (sc *scn) newTask(spec TaskSpec) *task {
 			t.panicVal = panicSlice{t.id, 7}
 		case "map":
 			t.panicVal = panicMap{"task": t.id}
+		case "nilvalue":
+			t.panicVal = nil // panic(nil): with GODEBUG=panicnil=1 recover() returns nil
 		default:
 			t.panicVal = fmt.Sprintf("panic of task %d", t.id)
 		}
